@@ -187,7 +187,8 @@ type SrvReq struct {
 	Conn   *Conn   // Connection that the request belongs to
 
 	status     reqStatus
-	flushreq   *SrvReq
+	flushreq   *SrvReq // the Tflush requests that flush this request (most recent first) ...
+	flushnext  *SrvReq // ... linked through this field of theirs
 	prev, next *SrvReq
 }
 
@@ -429,7 +430,7 @@ func (req *SrvReq) Respond() {
 		if req.flushreq != nil {
 			var p *SrvReq
 			r := nextreq.flushreq
-			for ; r != nil; p, r = r, r.flushreq {
+			for ; r != nil; p, r = r, r.flushnext {
 			}
 
 			if p == nil {
@@ -455,7 +456,7 @@ func (req *SrvReq) Respond() {
 	// respond to the flush messages
 	// can't send the responses directly to conn.reqout, because the
 	// the flushes may be in a tag group too
-	for freq := flushreqs; freq != nil; freq = freq.flushreq {
+	for freq := flushreqs; freq != nil; freq = freq.flushnext {
 		freq.Respond()
 	}
 	verifPoint("respond.exit", req)
